@@ -65,7 +65,8 @@ extern MPT_STRUCT(node) *mpt_node_append(MPT_STRUCT(node) *old, const MPT_STRUCT
 		return 0;
 	}
 	conf->_meta = mt;
-	if (len && !mpt_identifier_set(&conf->ident, data, len)) {
+	/* a section or option without name is the element with the empty name */
+	if (data && !mpt_identifier_set(&conf->ident, data, len)) {
 		mpt_node_destroy(conf);
 		return 0;
 	}
